@@ -13,7 +13,7 @@ import (
 func init() {
 	register(&Rule{ID: "C11.VISIT", Min: 12, Doc: "every child of an expression node is checked on every path (or a diagnostic is emitted): no sub-expression escapes the semantic and untrusted-input checks", Run: runC11Visit})
 	register(&Rule{ID: "C11.SITE", Min: 2, Doc: "the untrusted-input checker is enabled exactly for run: scripts and the script input of actions/github-script", Run: runC11Site})
-	register(&Rule{ID: "C11.PAIR", Min: 4, Doc: "enter/leave callbacks of the untrusted checker bracket every node; Init before and OnVisitEnd after the walk", Run: runC11Pair})
+	register(&Rule{ID: "C11.PAIR", Min: 2, Doc: "enter/leave callbacks of the untrusted checker bracket every node; Init before and OnVisitEnd after the walk", Run: runC11Pair})
 	register(&Rule{ID: "C11.ORDER", Min: 2, Doc: "the index of an index access is visited before its operand in both traversals", Run: runC11Order})
 	register(&Rule{ID: "C11.SAFE", Min: 1, Doc: "the sanitising functions are exactly contains, startsWith, endsWith", Run: runC11Safe})
 	register(&Rule{ID: "C11.RESET", Min: 2, Doc: "the matcher state is reset on every path of end() and by Init()", Run: runC11Reset})
@@ -452,7 +452,7 @@ func runC11Site(c *Ctx) {
 					if usesCall(ifi.Cond, "strings.HasPrefix", "actions/github-script@") {
 						hasPrefix = true
 					}
-					if comparesWith(ifi.Cond, "script") {
+					if comparesWith(ifi.Cond, "script") && comparesLowerName(ifi.Cond) {
 						hasName = true
 					}
 				}
@@ -469,6 +469,20 @@ func runC11Site(c *Ctx) {
 }
 
 func usesCall(v ssa.Value, fn, constArg string) bool {
+	// a flag computed earlier (`isScript := x != nil && strings.HasPrefix(...)`): true only where the call was true
+	if ph, ok := v.(*ssa.Phi); ok {
+		some := false
+		for _, e := range ph.Edges {
+			if k, isConst := e.(*ssa.Const); isConst && k.Value != nil && k.Value.String() == "false" {
+				continue
+			}
+			if !usesCall(e, fn, constArg) {
+				return false
+			}
+			some = true
+		}
+		return some
+	}
 	call, ok := v.(*ssa.Call)
 	if !ok || calleeFullName(&call.Call) != fn {
 		return false
@@ -502,44 +516,80 @@ func runC11Pair(c *Ctx) {
 		c.anchorMissing("(*ExprSemanticsChecker).check / Check")
 		return
 	}
-	// in check: enter call and deferred leave in the entry block, before anything else
-	enter, leave := -1, -1
-	firstOther := -1
-	for i, in := range check.Blocks[0].Instrs {
+	// in check: the enter callback and the deferred leave callback come before anything else, guarded at most by the test
+	// that the untrusted checker exists. Each is a direct call of the checker's method or of a forwarder on the same
+	// receiver that makes exactly that call.
+	reaches := func(cc *ssa.CallCommon, want string) (bool, *ssa.Function) {
+		f := staticCallee(cc)
+		if f == nil {
+			return false, nil
+		}
+		if FuncName(f) == want {
+			return true, nil
+		}
+		if inModule(f) && f.Blocks != nil && f.Signature.Recv() != nil && pointeeName(f.Signature.Recv().Type()) == "ExprSemanticsChecker" && len(findCalls(f, want)) == 1 {
+			return true, f
+		}
+		return false, nil
+	}
+	var enter, leave ssa.Instruction
+	var fwd []*ssa.Function
+	eachInstr(check, func(_ *ssa.BasicBlock, _ int, in ssa.Instruction) {
 		switch x := in.(type) {
 		case *ssa.Call:
-			if f := staticCallee(&x.Call); f != nil && FuncName(f) == "(*ExprSemanticsChecker).visitUntrustedCheckerOnEnterNode" {
-				enter = i
-			} else if firstOther < 0 {
-				firstOther = i
+			if ok, f := reaches(&x.Call, "(*UntrustedInputChecker).OnVisitNodeEnter"); ok && enter == nil {
+				enter = x
+				if f != nil {
+					fwd = append(fwd, f)
+				}
 			}
 		case *ssa.Defer:
-			if f := staticCallee(&x.Call); f != nil && FuncName(f) == "(*ExprSemanticsChecker).visitUntrustedCheckerOnLeaveNode" {
-				leave = i
-			}
-		case *ssa.If:
-			if firstOther < 0 {
-				firstOther = i
+			if ok, f := reaches(&x.Call, "(*UntrustedInputChecker).OnVisitNodeLeave"); ok && leave == nil {
+				leave = x
+				if f != nil {
+					fwd = append(fwd, f)
+				}
 			}
 		}
+	})
+	bracket := enter != nil && leave != nil && instrReachableAfter(enter, leave) && !instrReachableAfter(leave, enter)
+	if bracket {
+		onlyNilGuard := func(in ssa.Instruction) bool {
+			for ifi := range controllingConds(in.Block()) {
+				v, _, ok := nilTest(ifi)
+				if !ok {
+					return false
+				}
+				if f, _ := fieldLoad(v); f != "ExprSemanticsChecker.untrusted" {
+					return false
+				}
+			}
+			return true
+		}
+		if !onlyNilGuard(enter) || !onlyNilGuard(leave) {
+			bracket = false
+		}
+		// nothing else is called before them
+		eachInstr(check, func(_ *ssa.BasicBlock, _ int, in ssa.Instruction) {
+			if in == enter || in == leave {
+				return
+			}
+			switch in.(type) {
+			case *ssa.Call, *ssa.Defer, *ssa.Go:
+				if instrReachableAfter(in, enter) || instrReachableAfter(in, leave) {
+					bracket = false
+				}
+			}
+		})
 	}
-	if enter >= 0 && leave > enter && (firstOther < 0 || firstOther > leave) {
+	if bracket {
 		c.ok("(*ExprSemanticsChecker).check|enter then deferred leave", check.Pos(), "the enter callback and the deferred leave callback come first, on every path")
 	} else {
 		c.bad("(*ExprSemanticsChecker).check|enter then deferred leave", check.Pos(), "the enter callback / deferred leave callback do not bracket every node visit: the bottom-up matcher misses nodes or sees them in the wrong order")
 	}
-	// both callbacks hand the node to the untrusted checker when it exists
-	for _, nm := range []string{"visitUntrustedCheckerOnEnterNode", "visitUntrustedCheckerOnLeaveNode"} {
-		f := p.Method("ExprSemanticsChecker", nm)
-		want := "(*UntrustedInputChecker).OnVisitNodeEnter"
-		if strings.Contains(nm, "Leave") {
-			want = "(*UntrustedInputChecker).OnVisitNodeLeave"
-		}
-		if f == nil || len(findCalls(f, want)) != 1 {
-			c.bad("(*ExprSemanticsChecker)."+nm+"|forwards", 0, "does not call "+want)
-		} else {
-			c.ok("(*ExprSemanticsChecker)."+nm+"|forwards", f.Pos(), "calls "+want)
-		}
+	// forwarders (when the callbacks are not called directly) hand the node to the untrusted checker when it exists
+	for _, f := range fwd {
+		c.ok(FuncName(f)+"|forwards", f.Pos(), "makes exactly one call of the untrusted checker's callback")
 	}
 	// in Check: Init dominates the walk, the walk dominates OnVisitEnd
 	inits := findCalls(Check, "(*UntrustedInputChecker).Init")
@@ -676,4 +726,26 @@ func runC11Reset(c *Ctx) {
 			c.bad(construct, f.Pos(), "a path returns without reset(): candidate paths / the object-filter flag of one chain leak into the next chain of the expression")
 		}
 	}
+}
+
+// comparesLowerName: the non-constant side of the comparison is a lower-cased name: the key of the range over the step's
+// inputs (the parser keys that map by the lower-cased input name) or a strings.ToLower result - not the spelling the user
+// wrote (Input.Name.Value), for which `Script:` would not be recognised.
+func comparesLowerName(v ssa.Value) bool {
+	bo, ok := v.(*ssa.BinOp)
+	if !ok {
+		return false
+	}
+	for _, o := range []ssa.Value{bo.X, bo.Y} {
+		if _, isConst := o.(*ssa.Const); isConst {
+			continue
+		}
+		if rf, idx := rangePart(o); rf == "ExecAction.Inputs" && idx == 1 {
+			return true
+		}
+		if call, ok := o.(*ssa.Call); ok && calleeFullName(&call.Call) == "strings.ToLower" {
+			return true
+		}
+	}
+	return false
 }
